@@ -1052,21 +1052,22 @@ fn gen_direct_block(r: &mut Rng) -> Vec<String> {
         q.upper = r.chance(1, 5);
         // advance the clock
         let target = live.get(&q.key()).copied();
-        t = match (r.below(12), target) {
-            (0..=2, _) => t,
-            (3, _) => t + r.below(1_000_000_000) as u128,
-            (4, _) => t + NS_PER_S - 1,
-            (5, _) => t + NS_PER_S,
-            (6, _) => t + r.range(1, 90) as u128 * NS_PER_S + r.below(2) as u128 * r.below(NS_PER_S as u64) as u128,
-            (7 | 8, Some((ti, l))) if ti + l >= t => ti + l,
-            (9, Some((ti, l))) if ti + l + 1 >= t => ti + l + 1,
-            (10, Some((ti, _))) => {
+        t = match (r.below(18), target) {
+            (0..=5, _) => t,
+            (6, _) => t + r.below(1_000_000_000) as u128,
+            (7, _) => t + NS_PER_S - 1,
+            (8, _) => t + NS_PER_S,
+            (9, _) => t + r.range(1, 90) as u128 * NS_PER_S + r.below(2) as u128 * r.below(NS_PER_S as u64) as u128,
+            (10..=12, Some((ti, l))) if ti + l >= t => ti + l,
+            (13, Some((ti, l))) if ti + l + 1 >= t => ti + l + 1,
+            (14 | 15, Some((ti, _))) => {
                 // a whole-second edge after the insert
                 let k = (t.saturating_sub(ti)) / NS_PER_S + r.range(0, 3) as u128;
                 (ti + k * NS_PER_S).saturating_sub(r.below(2) as u128).max(t)
             }
             _ if far => t + *r.pick(&[86_400u128, 86_401, 1 << 31, (1 << 32) - 1, 1 << 32, (1 << 32) + 1]) * NS_PER_S,
-            _ => t + r.range(1, 10) as u128 * NS_PER_S,
+            (16, _) => t + r.range(1, 10) as u128 * NS_PER_S,
+            _ => t + r.range(0, 2) as u128 * NS_PER_S,
         };
         let t_line = if backwards && r.chance(1, 6) { t.saturating_sub(r.range(1, 3) as u128 * NS_PER_S) } else { t };
         if r.chance(2, 5) {
@@ -1110,6 +1111,48 @@ fn gen_cc_block(r: &mut Rng) -> Vec<String> {
     lines
 }
 
+/// exhaustive small scope: every sequence of `len` steps over one key from an alphabet of
+/// (clock advance) × (lookup / insert of a few results), under a few configurations
+fn enumerate_small(len: usize) -> Vec<Vec<String>> {
+    let cfgs = [
+        "",
+        "d:2000000000,4000000000,1000000000,2000000000",
+        "1:1000000000,1000000000,-,- 5:3000000000,3000000000,-,-",
+        "d:-,1500000000,-,0",
+    ];
+    let dts: [u128; 4] = [0, 999_999_999, 1_000_000_000, 2_000_000_000];
+    let acts = [
+        "get",
+        "pos 1:0:1 - -",
+        "pos 1:1:1 - 16:9:2",
+        "pos 1:3:1 - -",
+        "pos 5:1:1,1:5:2 - -",
+        "neg 3 1 6:1:1 - -",
+        "err 0",
+    ];
+    let syms = dts.len() * acts.len();
+    let mut out = vec![];
+    for cfg in cfgs {
+        let total = syms.pow(len as u32);
+        for code in 0..total {
+            let mut lines = vec![format!("begin {cfg}").trim_end().to_string()];
+            let (mut c, mut t) = (code, 0u128);
+            for _ in 0..len {
+                let sym = c % syms;
+                c /= syms;
+                t += dts[sym % dts.len()];
+                let a = acts[sym / dts.len()];
+                lines.push(if a == "get" { format!("get 0/1 {t}") } else { format!("ins 0/1 {t} {a}") });
+            }
+            lines.push(format!("get 0/1 {t}"));
+            lines.push(format!("get 0/1 {}", t + 1_000_000_000));
+            lines.push(format!("end {}", digest(&lines)));
+            out.push(lines);
+        }
+    }
+    out
+}
+
 pub fn run(o: &Opts, rec: &mut Recorder) {
     rec.rule = "histories (begin…end blocks) of insert/get at explicit instants over 1-4 query keys × TTL-bound configurations (none / global / per-type / min>ttl / max<ttl / min=max / 0 / sub-second / ≥2^32 s / dedicated min>max), lookups aimed at the insert instant, whole-second edges, t_ins+L and t_ins+L+1ns; a case is non-trivial when it is a lookup that was served, a lookup that missed because the entry had expired, an insert replacing a live entry, or the `end` line (carrying the digest of its history) of a block with at least one served lookup and one expiry or live re-insert; distinct by case line".into();
     let mut ctx = Ctx { blk: Blk::None, hits: 0, expired: 0, reins_live: 0 };
@@ -1120,8 +1163,14 @@ pub fn run(o: &Opts, rec: &mut Recorder) {
     if o.replay_only {
         return;
     }
+    for lines in enumerate_small(if o.thorough() { 3 } else { 2 }) {
+        rec.stat("block.enumerated");
+        for l in lines {
+            exec(&l, &mut ctx, rec);
+        }
+    }
     let mut r = Rng::new(o.seed);
-    let blocks = o.n(1500, 60_000);
+    let blocks = o.n(12_000, 150_000);
     for i in 0..blocks {
         let lines = if i % 12 == 11 { gen_cc_block(&mut r) } else { gen_direct_block(&mut r) };
         for l in lines {
